@@ -123,6 +123,7 @@ println(out.read())
 "#;
 
 fn main() {
+    child_run_if_requested();
     let args: Vec<String> = std::env::args().collect();
     if args.get(1).map(|s| s.as_str()) == Some("--child-d24") {
         // runs in a child process: a host stack overflow aborts the process
@@ -147,37 +148,56 @@ fn main() {
         let c = gen_alias_capture(&mut ctx.rng, i);
         jobs.push(Job { src: c.src, class: c.class, ty: Ty::Nest, expected: c.expected, model: None, alias_model: c.model });
     }
-    let results = par_map(&jobs, |j| {
-        let mk = match compile_program(&j.src) {
-            Ok(mk) => mk,
-            Err(o) => return Err(o),
-        };
-        Ok(BUDGETS
-            .iter()
-            .map(|&b| {
-                let mut h = host();
-                let t = run_traced_rt(&mk, &Schedule::constant(b), 2_000_000, &mut h);
-                (b, t.outcome.clone(), t.out.clone(), t.err_text.clone())
-            })
-            .collect::<Vec<_>>())
-    });
+    // every program runs in a child process: a defect can abort the process (teardown panics, heap
+    // corruption) and must be attributed to the program that triggered it
+    let scheds: Vec<Schedule> = BUDGETS.iter().map(|&b| Schedule::constant(b)).collect();
+    let batches: Vec<&[Job]> = jobs.chunks(8).collect();
+    let results: Vec<ChildResult> = par_map(&batches, |b| {
+        let cj: Vec<ChildJob> = b.iter().map(|j| ChildJob { src: &j.src, scheds: &scheds, trace_idx: None }).collect();
+        run_batch_in_child(&cj, 2_000_000)
+    })
+    .into_iter()
+    .flatten()
+    .collect();
     for (j, r) in jobs.iter().zip(results) {
         ctx.count(&format!("class:{}", j.class));
         if j.alias_model.is_none() {
             ctx.count(&format!("type:{:?}", j.ty));
         }
-        let prog = || j.src[DECLS.len()..].replace('\n', "\\n");
-        let runs = match r {
-            Ok(x) => x,
-            Err(Outcome::Rejected(e)) => {
+        let prog = || j.src[DECLS.len()..].replace(ALIAS_DECLS, "").replace('\n', "\\n");
+        let runs: Vec<(u32, Outcome, String, String)> = match r {
+            ChildResult::Runs(x) => x
+                .into_iter()
+                .zip(BUDGETS.iter())
+                .map(|(c, &b)| {
+                    let o = match c.outcome.as_str() {
+                        "done" => Outcome::Done,
+                        "timeout" => Outcome::Timeout,
+                        "crash" => Outcome::Crash(c.err_text.clone()),
+                        k => Outcome::Error(k.trim_start_matches("error:").to_string()),
+                    };
+                    (b, o, c.out, c.err_text)
+                })
+                .collect(),
+            ChildResult::Compile(tag, text) if tag == "rejected" => {
                 ctx.count("rejected");
                 if ctx.notes.len() < 5 {
-                    ctx.notes.push(format!("rejected: {} :: {}", e.lines().find(|l| !l.trim().is_empty()).unwrap_or(""), prog()));
+                    ctx.notes.push(format!("rejected: {} :: {}", text.lines().find(|l| !l.trim().is_empty()).unwrap_or(""), prog()));
                 }
                 continue;
             }
-            Err(o) => {
-                ctx.spec_fail(format!("compiler: {:?} :: {}", o, prog()));
+            ChildResult::Compile(tag, text) => {
+                ctx.spec_fail(format!("compiler: {tag} {} :: {}", text.replace('\n', " | "), prog()));
+                continue;
+            }
+            ChildResult::Died(what, done, in_progress) => {
+                ctx.count("child-died");
+                ctx.spec_fail(format!(
+                    "the host process died while running this program ({what}); schedule in progress: {}; completed runs before: {} :: {}",
+                    in_progress.unwrap_or_else(|| "teardown/after the last run".into()),
+                    done.len(),
+                    prog()
+                ));
                 continue;
             }
         };
